@@ -1,14 +1,15 @@
-(* Proofs/PinTest_dups.v -- compiled copy of the pin blocks Props/pending/C06_dups.v.txt and C07_dups.v.txt (package dups):
-   the preamble below is the import preamble of Props/C06.v and Props/C07.v; everything after the two marker comments is
-   the exact text of the pending files. *)
+(* Proofs/PinTest_dups.v -- compiled copy of the pin blocks Props/pending/C06_dups.v.txt and C07_dups.v.txt (package dups).
+   Each block is compiled inside its own module, after exactly the Require / Import / Open Scope sentences of the Props file
+   it will be appended to (Props/C07.v imports Floats and Reals further down, which shadow [zero], [add], ...; it does not
+   import Permutation): what compiles here compiles at the end of Props/C06.v / Props/C07.v.  Everything between the
+   BEGIN / END markers is the exact text of the pending file. *)
+Module PinC06.
 From Coq Require Import List Arith ZArith QArith Qcanon Lia Permutation.
-From OV Require Import Base.Panic Base.Arith Base.Flat Model.Vector Model.Matrix Model.Sparse Inst.QcInst
-                       Proofs.SparseBase Proofs.SparseMul Proofs.SparseWf Proofs.SparseHist
-                       Proofs.SparseViews Proofs.SparseRefine Proofs.SparseTranspose Proofs.SparseFinal Proofs.SparseVecs.
+From OV Require Import Base.Panic Base.Arith Base.Flat Model.Vector Model.Matrix Model.Sparse Inst.QcInst Proofs.SparseBase Proofs.SparseMul Proofs.SparseWf Proofs.SparseHist Proofs.SparseViews Proofs.SparseRefine Proofs.SparseTranspose Proofs.SparseFinal Proofs.SparseVecs.
 Import ListNotations.
 Local Open Scope nat_scope.
-
-(* ---------------- Props/pending/C06_dups.v.txt ---------------- *)
+From OV Require Proofs.SrcEqSparse.
+(* ---------------- BEGIN Props/pending/C06_dups.v.txt ---------------- *)
 (* ======================================================================================================
    C06 (sparse views), duplicate positions -- package dups.  Append to Props/C06.v.
    The behaviour of src/sparse.rs on storage that holds one position several times, SPECIFIED (until now: tied,
@@ -251,15 +252,22 @@ Example from_triplets_same_duplicate_order_nonvacuous :   (* dup_ts and dup_ts' 
   (forall t, In t dup_ts -> trow t < 2 /\ tcol t < 2) /\ (forall t, In t dup_ts' -> trow t < 2 /\ tcol t < 2) /\
   (forall i j, i < 2 -> j < 2 -> filter (tmatch i j) dup_ts = filter (tmatch i j) dup_ts') /\ map (@tcol AQ) dup_ts <> map (@tcol AQ) dup_ts'.
 Proof. split; [exact dup_ts_in_range|]. split; [exact dup_ts'_in_range|]. split; [exact dup_ts_same_duplicate_order|]. vm_compute. discriminate. Qed.
+(* ---------------- END Props/pending/C06_dups.v.txt ---------------- *)
+End PinC06.
 
-(* ---------------- the later imports of Props/C07.v (rounding half): they shadow [zero], [add], ... by the float ones ---------------- *)
+Module PinC07.
+From Coq Require Import List Arith ZArith QArith Qcanon Lia.
+From OV Require Import Base.Panic Base.Arith Base.Flat Model.Vector Model.Matrix Model.Sparse Inst.QcInst Proofs.SparseBase Proofs.SparseMul Proofs.SparseWf Proofs.SparseHist Proofs.SparseViews Proofs.SparseRefine Proofs.SparseTranspose Proofs.SparseFinal.
+Import ListNotations.
+Local Open Scope nat_scope.
+From OV Require Proofs.SrcEqSparse.
 From Coq Require Import Reals Lra Lia.
 From OV Require Import Base.RoundModel Proofs.SparseBase Proofs.RoundDot Proofs.RoundSparse Proofs.RoundFlx Proofs.RoundExamples.
 From Coq Require Import Floats.
 From OV Require Import Inst.FloatInst Proofs.ComplexRound Proofs.RoundDotFloat.
 From OV Require Import Proofs.RoundSparseDense.
 From OV Require Import Proofs.RoundSparseT.
-(* ---------------- Props/pending/C07_dups.v.txt ---------------- *)
+(* ---------------- BEGIN Props/pending/C07_dups.v.txt ---------------- *)
 (* ======================================================================================================
    C07 (sparse products), duplicate positions -- package dups.  Append to Props/C07.v.
    sp_mul_spec / sp_tmul_spec / sp_adjoint / sp_transpose_mul above hold for EVERY well-formed storage: the products are
@@ -271,6 +279,7 @@ From OV Require Import Proofs.RoundSparseT.
    sp_mul_to_dense_nodup; to_dense_entry re-derived); adjointness and the product with the explicit transpose need no
    condition, and transposition preserves every entry sum (adjoint_with_duplicates).
    ====================================================================================================== *)
+From Coq Require Import Permutation.
 From OV Require Proofs.Matrix.
 From OV Require Import Proofs.SparseDup Proofs.SparseDupOps Proofs.SparseDupMul Proofs.SparseDupOrder Proofs.SparseDupExamples.
 
@@ -391,3 +400,5 @@ Example from_triplets_products_order_independent_nonvacuous :   (* the reversed 
   fl_res (fun o : option AQ => flat_q (oval o)) (let* s := sp_from_triplets 2 2 dup_ts in sp_get s 1 1)
   <> fl_res (fun o : option AQ => flat_q (oval o)) (let* s := sp_from_triplets 2 2 (rev dup_ts) in sp_get s 1 1).
 Proof. split; [exact dup_RingLaws|]. split; [apply Permutation_rev|]. split; [exact dup_ts_in_range|]. vm_compute. discriminate. Qed.
+(* ---------------- END Props/pending/C07_dups.v.txt ---------------- *)
+End PinC07.
